@@ -54,7 +54,9 @@ def run(ck):
                           "schedules: media parked between frame prefix and payload then a request; responder parked inside the socket "
                           "write of its response/Flush then a packet; random interleavings of publish / request / step-media / step-responder "
                           "(every socket write and the prefix/payload gap are schedule points); the proved oracle ok_sink is applied to the "
-                          "client's bytes against the intended frames and responses; non-trivial = at least one packet and one request. "
+                          "client's bytes against the intended frames and responses; non-trivial = at least one packet and one request; the stream's real demuxer goroutine is a controlled thread stepped "
+                          "while the writer is parked between prefix and body, 30-70 % of the packets carry RTP padding (P bit, 1..255 octets), a purity "
+                          "probe (ok_pure) checks every published packet after the history. "
                           "(3) two or three RTSP/TCP viewers of one stream with different channel maps on their own scripted connections, one "
                           "P: viewer 0 is parked inside the socket write of a frame prefix (queue emptied, flush token available: the socket "
                           "reads the caller's slice) or between its halves while the others deliver frames of other lengths and channels, then "
@@ -88,6 +90,13 @@ def _apkt(rng, seq, n):
     return [2, bytes([0x80, 97, seq >> 8, seq & 255, 0, 0, 0, seq & 255, 5, 6, 7, 8, 0x00, 0x10, (n >> 5) & 255, (n << 3) & 255])
             + bytes(rng.randrange(256) for _ in range(n))]
 
+def _pad(rng, body):
+    """RTP padding (RFC 3550 5.1): P bit set, n padding octets, the last one holds n"""
+    n = rng.choice([1, 2, 3, 4, 8, 31, 64, 200, 255]) if rng.random() < 0.7 else rng.randint(1, 255)
+    d = bytearray(body[1])
+    d[0] |= 0x20
+    return [body[0], bytes(d) + bytes(n - 1) + bytes([n])]
+
 def gen_session(rng, ws, scenario):
     npk = rng.randint(1, 4)
     pk = []
@@ -100,6 +109,8 @@ def gen_session(rng, ws, scenario):
             if body[0] == 2:   # keep the AU header consistent
                 n2 = len(body[1]) - 16
                 body[1] = body[1][:14] + bytes([(n2 >> 5) & 255, (n2 << 3) & 255]) + body[1][16:]
+        if rng.random() < (0.7 if scenario == 0 and i == 0 else 0.3):
+            body = _pad(rng, body)
         pk.append(body)
     rq = [[rng.choice([0, 0, 4, 4, 8, 7]), str(100 + i)] for i in range(rng.randint(1, 4))]
     sched = [rng.randrange(64) for _ in range(rng.randint(0, 80))] if scenario == 2 else \
@@ -118,10 +129,11 @@ def session_streams(ck):
     if len(obs) != len(cases):
         return
     lines, idx = [], []
+    pure_lines, pure_idx, padded_at_prefix = [], [], 0
     forced = {0: 0, 1: 0}
     for i, (c, o) in enumerate(zip(cases, obs)):
         v = vparse(o)
-        if not (isinstance(v, list) and len(v) >= 8 and isinstance(v[0], bytes) and not v[0].startswith(b"!")
+        if not (isinstance(v, list) and len(v) >= 9 and isinstance(v[0], bytes) and not v[0].startswith(b"!")
                 and isinstance(v[1], list)):
             ck.fail("session-sched", "session-harness", vs(c), observed=o, note="harness could not run the case")
             continue
@@ -133,6 +145,17 @@ def session_streams(ck):
             continue
         lines.append("((%s %s) (%s))" % (vs(frames), vs(resps), vs(sink)))
         idx.append(i)
+        # purity probe: the published packets (shared with the demuxer) are what was published
+        pub, after, padchg = v[8]
+        if pub != [p[1] for p in c[2]][:len(pub)]:
+            ck.fail("session-sched", "session-harness", vs(c), observed=o, note="published packets differ from the case")
+            continue
+        pure_lines.append("((%s) (%s))" % (vs(pub), vs(after)))
+        pure_idx.append(i)
+        if padchg:
+            ck.fail("session-sched", "packet-mutated", vs(c), observed=o, note="the Padding flag of a published packet was changed")
+        if c[1] == 0 and c[2] and c[2][0][1][0] & 0x20 and expect != 0 and not note:
+            padded_at_prefix += 1
         # the real readers split the client's bytes into exactly these messages
         if parsed != [len(frames), len(resps), 1]:
             ck.fail("session-sched", "session-reader", vs(c), observed=o,
@@ -153,9 +176,17 @@ def session_streams(ck):
                         note="a WebSocket message is not exactly one complete response or frame")
     try:
         oks = run_driver(ck.prop, "C13_sink_ok", lines)
+        pures = run_driver(ck.prop, "C13_pure_ok", pure_lines)
     except Broken as b:
         ck.broken.append(b)
         return
+    for i, k in zip(pure_idx, pures):
+        if k != "1":
+            ck.fail("session-sched", "packet-mutated", vs(cases[i]), observed=obs[i],
+                    note="a published packet (shared by the viewers' goroutines and the demuxer) was modified")
+    ck.extra["session_padded_packet_demuxed_between_prefix_and_body"] = padded_at_prefix
+    if padded_at_prefix < 2:
+        ck.broken.append(Broken("C13 session schedules no longer run the demuxer on a padded packet between prefix and body (%d)" % padded_at_prefix))
     for i, k in zip(idx, oks):
         ck.count(1, "sink" + str(i))
         if k != "1":
@@ -228,6 +259,8 @@ def _pool_pkt(rng, seq, big):
         if body[0] == 2:
             n2 = len(body[1]) - 16
             body[1] = body[1][:14] + bytes([(n2 >> 5) & 255, (n2 << 3) & 255]) + body[1][16:]
+    if rng.random() < 0.35:
+        body = _pad(rng, body)
     return body
 
 def gen_pool(rng, i):
@@ -288,13 +321,14 @@ def pool_sessions(ck):
     if len(obs) != len(cases):
         return
     ok_lines, run_lines, idx = [], [], []
+    pure_lines, frame_lines = [], []
     forced = {0: 0, 1: 0, 2: 0}
     for i, (c, o) in enumerate(zip(cases, obs)):
         v = vparse(o)
-        if not (isinstance(v, list) and len(v) == 7 and isinstance(v[0], list) and isinstance(v[1], list)):
+        if not (isinstance(v, list) and len(v) == 8 and isinstance(v[0], list) and isinstance(v[1], list)):
             ck.fail("pool-sessions", "pool-harness", vs(c), observed=o, note="harness could not run the case")
             continue
-        conns, sessions, wsp_pool, rtsp_pool, bad, frc, note = v
+        conns, sessions, wsp_pool, rtsp_pool, bad, frc, note, (pub, after, padchg) = v
         # intended frames are computed here from the case (packet bytes, channel map of the SETUP) and must be what the
         # harness published; one intended response per request
         good = len(sessions) == len(c[1])
@@ -309,6 +343,19 @@ def pool_sessions(ck):
         if bad:
             ck.fail("pool-sessions", "pool-setup-message", vs(c), observed=o,
                     note="a WebSocket message of the sequential phase is not exactly one complete response: %r" % bad[0][:120])
+        if pub != [p[1] for p in c[2]][:len(pub)]:
+            ck.fail("pool-sessions", "pool-harness", vs(c), observed=o, note="published packets differ from the case")
+            continue
+        if padchg:
+            ck.fail("pool-sessions", "packet-mutated", vs(c), observed=o, note="the Padding flag of a published packet was changed")
+        pure_lines.append("((%s) (%s))" % (vs(pub), vs(after)))
+        # the frames of every data connection, as (packet, announced length, body), against the published packets
+        fr = []
+        for s_ in sessions:
+            mine = [k for k, p in enumerate(c[2]) if c[1][sessions.index(s_)][1][p[0]] >= 0]
+            got = [m for cn in conns if cn[0] == s_[2] for m in cn[1] if m[:1] == b"$"]
+            fr += [[mine[k] if k < len(mine) else len(c[2]), (m[2] << 8 | m[3]) if len(m) >= 4 else 70000, m[4:]] for k, m in enumerate(got)]
+        frame_lines.append("((%s) (%s))" % (vs([p[1] for p in c[2]]), vs(fr)))
         progs = _pool_progs(sessions)
         drained = list(wsp_pool) + [1000 + b for b in rtsp_pool]
         ok_lines.append("((%s) (%s ()))" % (vs(progs), vs(conns)))       # the messages
@@ -324,6 +371,8 @@ def pool_sessions(ck):
     try:
         oks = run_driver(ck.prop, "C13_pool_ok", ok_lines)
         runs = run_driver(ck.prop, "C13_pool_run", run_lines)
+        pures = run_driver(ck.prop, "C13_pure_ok", pure_lines)
+        fros = run_driver(ck.prop, "C13_frames_ok", frame_lines)
     except Broken as b:
         ck.broken.append(b)
         return
@@ -334,6 +383,12 @@ def pool_sessions(ck):
         if not msg_ok:
             ck.fail("pool-sessions", "pool-message", vs(c), observed=o,
                     note="a WebSocket message is not exactly one complete response or one complete frame of its sender, in the sender's order")
+        if pures[n_] != "1":
+            ck.fail("pool-sessions", "packet-mutated", vs(c), observed=o,
+                    note="a published packet (shared by the viewers' goroutines and the demuxer) was modified")
+        if fros[n_] != "1":
+            ck.fail("pool-sessions", "pool-frame", vs(c), observed=o,
+                    note="a frame's announced length is not the length of its body, or the body is not the published packet")
         if not own_ok:
             ck.fail("pool-sessions", "pool-ownership", vs(c), observed=o,
                     note="after everybody left, a staging buffer is in a pool more than once")
